@@ -274,7 +274,9 @@ def rejection_sample_helper(
     )
 
     if return_logprobs:
-        samples["ln_likelihood"] = lls[good_samples_idx]
+        # one value per returned row: each nonlinear sample has n_linear_samples rows
+        full_samples_idx = np.repeat(full_samples_idx, n_linear_samples)
+        samples["ln_likelihood"] = np.repeat(lls[good_samples_idx], n_linear_samples)
 
         with tb.open_file(prior_samples_file, mode="r") as f:
             data = f.root[JokerSamples._hdf5_path]
@@ -418,7 +420,11 @@ def iterative_rejection_helper(
 
     # FIXME: copy-pasted from function above
     if return_logprobs:
-        samples["ln_likelihood"] = all_marg_lls[good_samples_idx]
+        # one value per returned row: each nonlinear sample has n_linear_samples rows
+        full_samples_idx = np.repeat(full_samples_idx, n_linear_samples)
+        samples["ln_likelihood"] = np.repeat(
+            all_marg_lls[good_samples_idx], n_linear_samples
+        )
 
         with tb.open_file(prior_samples_file, mode="r") as f:
             data = f.root[JokerSamples._hdf5_path]
